@@ -15,7 +15,8 @@ pub use str_ax::*;
 
 /// `slice.contains(x)`: some element compares equal to x (core: `self.iter().any(|e| *e == *x)`)
 pub assume_specification<T: PartialEq>[ <[T]>::contains ](s: &[T], x: &T) -> (r: bool)
-    ensures r == exists|i: int| 0 <= i < s@.len() && vp_eq(#[trigger] s@[i], *x);
+    ensures r == slice_has(s@, *x);
+pub open spec fn slice_has<T>(s: Seq<T>, x: T) -> bool { exists|i: int| 0 <= i < s.len() && vp_eq(#[trigger] s[i], x) }
 
 pub assume_specification<'a>[ <String as PartialEq<&'a str>>::eq ](a: &String, b: &&str) -> (r: bool)
     ensures r == (a@ == b@);
@@ -26,30 +27,35 @@ pub assume_specification[ <String as PartialEq<str>>::eq ](a: &String, b: &str) 
 pub open spec fn str_views(v: Seq<String>) -> Seq<Seq<char>> { v.map_values(|s: String| s@) }
 pub open spec fn lit_views(v: Seq<&'static str>) -> Seq<Seq<char>> { v.map_values(|s: &'static str| s@) }
 
-/// membership of a `&str` in a slice of literals / of a String in a slice of Strings, on views
-pub proof fn lemma_lits_contains(s: Seq<&'static str>, x: &str)
-    ensures (exists|i: int| 0 <= i < s.len() && vp_eq::<&str>(#[trigger] s[i], x)) == lit_views(s).contains(x@),
-{
-    broadcast use axiom_vp_eq_str;
-    if lit_views(s).contains(x@) {
-        let i = choose|i: int| 0 <= i < lit_views(s).len() && lit_views(s)[i] == x@;
-        assert(vp_eq::<&str>(s[i], x));
+/// membership of a `&str` in a slice of literals / of a String in a slice of Strings, on views (PROVED from
+/// the two axioms above; broadcast so that `slice.contains(..)` results read as `Seq::contains` on views)
+pub mod str_lemmas {
+    use super::*;
+    pub broadcast proof fn lemma_lits_contains(s: Seq<&'static str>, x: &'static str)
+        ensures #[trigger] slice_has::<&'static str>(s, x) == lit_views(s).contains(x@),
+    {
+        broadcast use axiom_vp_eq_str;
+        if lit_views(s).contains(x@) {
+            let i = choose|i: int| 0 <= i < lit_views(s).len() && lit_views(s)[i] == x@;
+            assert(vp_eq::<&str>(s[i], x));
+        }
+        if slice_has::<&'static str>(s, x) {
+            let i = choose|i: int| 0 <= i < s.len() && vp_eq::<&str>(#[trigger] s[i], x);
+            assert(lit_views(s)[i] == x@);
+        }
     }
-    if exists|i: int| 0 <= i < s.len() && vp_eq::<&str>(#[trigger] s[i], x) {
-        let i = choose|i: int| 0 <= i < s.len() && vp_eq::<&str>(#[trigger] s[i], x);
-        assert(lit_views(s)[i] == x@);
+    pub broadcast proof fn lemma_strings_contains(s: Seq<String>, x: String)
+        ensures #[trigger] slice_has::<String>(s, x) == str_views(s).contains(x@),
+    {
+        broadcast use axiom_vp_eq_string;
+        if str_views(s).contains(x@) {
+            let i = choose|i: int| 0 <= i < str_views(s).len() && str_views(s)[i] == x@;
+            assert(vp_eq::<String>(s[i], x));
+        }
+        if slice_has::<String>(s, x) {
+            let i = choose|i: int| 0 <= i < s.len() && vp_eq::<String>(#[trigger] s[i], x);
+            assert(str_views(s)[i] == x@);
+        }
     }
 }
-pub proof fn lemma_strings_contains(s: Seq<String>, x: String)
-    ensures (exists|i: int| 0 <= i < s.len() && vp_eq::<String>(#[trigger] s[i], x)) == str_views(s).contains(x@),
-{
-    broadcast use axiom_vp_eq_string;
-    if str_views(s).contains(x@) {
-        let i = choose|i: int| 0 <= i < str_views(s).len() && str_views(s)[i] == x@;
-        assert(vp_eq::<String>(s[i], x));
-    }
-    if exists|i: int| 0 <= i < s.len() && vp_eq::<String>(#[trigger] s[i], x) {
-        let i = choose|i: int| 0 <= i < s.len() && vp_eq::<String>(#[trigger] s[i], x);
-        assert(str_views(s)[i] == x@);
-    }
-}
+pub use str_lemmas::*;
